@@ -1,5 +1,5 @@
 (* C10 -- Running out of space fails cleanly with ENOSPC and a consistent volume. Statements only. *)
-From Coq Require Import List NArith ZArith Bool.
+From Coq Require Import List NArith ZArith Bool String.
 From NV Require Import Lib.Res Gen.Fat Fat.Spec.
 From NV Require Import FatTable.Model FatTable.ProofsBase FatTable.ProofsSet32 FatTable.Proofs.
 From NV Require Import FatAlloc.Model FatAlloc.ProofsBase FatAlloc.ProofsGrow FatAlloc.ProofsOps FatAlloc.ProofsWrite FatAlloc.ProofsFrame FatAlloc.Proofs.
@@ -29,12 +29,12 @@ Print Assumptions C10_free_complete.
 
 (* growing truncate fails exactly when too few clusters are free, and then with ENOSPC (all or nothing: the state is returned unchanged) *)
 Theorem C10_truncate_enospc :
-  forall bits cs limit : N, 0 < cs -> limit <= max_valid (PB bits) + 1 -> forall (newsize : N) (st : FatAlloc.Model.fstate) (e : exn), truncate (PB bits) cs limit newsize st = Err e <-> e = OSError_ENOSPC /\ newsize <> size st /\ len (map st) < trunc_clusters cs newsize /\ (length (free_scan (PB bits) (tbl st) limit (hint_of (sfat st))) < N.to_nat (trunc_clusters cs newsize - len (map st)))%nat.
+  forall bits cs limit : N, 0 < cs -> limit <= max_valid (PB bits) + 1 -> forall (newsize : N) (st : FatAlloc.Model.fstate) (e : exn), truncate (PB bits) cs limit newsize st = Err e <-> e = OSError_ENOSPC /\ newsize <> size st /\ len (map st) < trunc_clusters cs newsize /\ (Datatypes.length (free_scan (PB bits) (tbl st) limit (hint_of (sfat st))) < N.to_nat (trunc_clusters cs newsize - len (map st)))%nat.
 Proof. exact FatAlloc.Proofs.FA_truncate_enospc. Qed.
 Print Assumptions C10_truncate_enospc.
 
 Theorem C10_truncate_enospc_genuine :
-  forall bits cs limit : N, 0 < cs -> limit <= max_valid (PB bits) + 1 -> forall (newsize : N) (st : FatAlloc.Model.fstate) (e : exn) (l : list N), truncate (PB bits) cs limit newsize st = Err e -> NoDup l -> (forall c : N, In c l -> is_free (PB bits) limit (tbl st) c /\ c <= max_valid (PB bits)) -> (length l < N.to_nat (trunc_clusters cs newsize - len (map st)))%nat.
+  forall bits cs limit : N, 0 < cs -> limit <= max_valid (PB bits) + 1 -> forall (newsize : N) (st : FatAlloc.Model.fstate) (e : exn) (l : list N), truncate (PB bits) cs limit newsize st = Err e -> NoDup l -> (forall c : N, In c l -> is_free (PB bits) limit (tbl st) c /\ c <= max_valid (PB bits)) -> (Datatypes.length l < N.to_nat (trunc_clusters cs newsize - len (map st)))%nat.
 Proof. exact FatAlloc.Proofs.FA_truncate_enospc_genuine. Qed.
 Print Assumptions C10_truncate_enospc_genuine.
 
@@ -50,25 +50,25 @@ Proof. exact FatAlloc.Proofs.FA_write_wf. Qed.
 Print Assumptions C10_write_enospc_wf.
 
 Theorem C10_truncate_wf :
-  forall bits cs limit : N, 0 < cs -> limit <= max_valid (PB bits) + 1 -> forall (newsize : N) (st st' : FatAlloc.Model.fstate), st_wf (PB bits) cs limit st -> truncate (PB bits) cs limit newsize st = Ok st' -> st_wf (PB bits) cs limit st' /\ size st' = newsize /\ pos st' = pos st /\ length (tbl st') = length (tbl st) /\ ((exists new : list N, new <> [] /\ map st' = map st ++ new /\ new = firstn (length new) (free_scan (PB bits) (tbl st) limit (hint_of (sfat st))) /\ extends (PB bits) limit (tbl st) (map st) (tbl st') (map st')) \/ (exists removed : list N, removed <> [] /\ map st = map st' ++ removed /\ map st' <> [] /\ (forall c : N, In c removed -> get (tbl st') c = 0) /\ (forall c : N, ~ In c (map st) -> get (tbl st') c = get (tbl st) c)) \/ map st' = map st /\ sfat st' = sfat st).
+  forall bits cs limit : N, 0 < cs -> limit <= max_valid (PB bits) + 1 -> forall (newsize : N) (st st' : FatAlloc.Model.fstate), st_wf (PB bits) cs limit st -> truncate (PB bits) cs limit newsize st = Ok st' -> st_wf (PB bits) cs limit st' /\ size st' = newsize /\ pos st' = pos st /\ Datatypes.length (tbl st') = Datatypes.length (tbl st) /\ ((exists new : list N, new <> [] /\ map st' = map st ++ new /\ new = firstn (Datatypes.length new) (free_scan (PB bits) (tbl st) limit (hint_of (sfat st))) /\ extends (PB bits) limit (tbl st) (map st) (tbl st') (map st')) \/ (exists removed : list N, removed <> [] /\ map st = map st' ++ removed /\ map st' <> [] /\ (forall c : N, In c removed -> get (tbl st') c = 0) /\ (forall c : N, ~ In c (map st) -> get (tbl st') c = get (tbl st) c)) \/ map st' = map st /\ sfat st' = sfat st).
 Proof. exact FatAlloc.Proofs.FA_truncate_wf. Qed.
 Print Assumptions C10_truncate_wf.
 
 (* at byte level: a step that fails does so with ENOSPC, keeps the invariant; a failed truncate changes nothing, a failed write keeps a strict prefix of the buffer *)
 Theorem C10_data_step_enospc :
-  forall bits cs : N, 0 < cs -> forall (s : dstate) (o : op) (s' : dstate) (e : exn), ProofsTrunc.Inv (PB bits) cs s -> step (PB bits) cs true s o = (s', Err e) -> ProofsTrunc.Inv (PB bits) cs s' /\ match o with | OSeek _ _ => spec_step cs (ProofsTrunc.abs s) o = (ProofsTrunc.abs s', Err e) /\ ProofsTrunc.abs s' = ProofsTrunc.abs s | OWrite b => e = OSError_ENOSPC /\ (ProofsTrunc.abs s' = ProofsTrunc.abs s /\ alen (ProofsTrunc.abs s) < apos (ProofsTrunc.abs s) \/ (exists k : nat, (k < length b)%nat /\ ProofsTrunc.abs s' = a_write (ProofsTrunc.abs s) (firstn k b))) | OTruncate _ => e = OSError_ENOSPC /\ ProofsTrunc.abs s' = ProofsTrunc.abs s /\ fs s' = fs s | _ => False end.
+  forall bits cs : N, 0 < cs -> forall (s : dstate) (o : op) (s' : dstate) (e : exn), ProofsTrunc.Inv (PB bits) cs s -> step (PB bits) cs true s o = (s', Err e) -> ProofsTrunc.Inv (PB bits) cs s' /\ match o with | OSeek _ _ => spec_step cs (ProofsTrunc.abs s) o = (ProofsTrunc.abs s', Err e) /\ ProofsTrunc.abs s' = ProofsTrunc.abs s | OWrite b => e = OSError_ENOSPC /\ (ProofsTrunc.abs s' = ProofsTrunc.abs s /\ alen (ProofsTrunc.abs s) < apos (ProofsTrunc.abs s) \/ (exists k : nat, (k < Datatypes.length b)%nat /\ ProofsTrunc.abs s' = a_write (ProofsTrunc.abs s) (firstn k b))) | OTruncate _ => e = OSError_ENOSPC /\ ProofsTrunc.abs s' = ProofsTrunc.abs s /\ fs s' = fs s | _ => False end.
 Proof. exact FatData.Proofs.FD_step_enospc. Qed.
 Print Assumptions C10_data_step_enospc.
 
 (* compaction of a directory (run when a fixed root is full) keeps the listing and every look-up, leaves no deleted record before the new end, zero-fills the tail *)
 Theorem C10_clean_preserves_listing :
-  forall (upper : list N -> list N) (d : Model.dir), ProofsClean.wf_recs (Model.d_recs d) -> ProofsClean.tidy (Model.d_recs d) = true -> let d' := fst (Model.clean d) in let eof := snd (Model.clean d) in ProofsView.view (Model.d_recs d') = ProofsView.view (Model.d_recs d) /\ (forall name : list N, Model.getitem upper d' name = Model.getitem upper d name) /\ (forall name : list N, Model.contains upper d' name = Model.contains upper d name) /\ Model.listing d' = Model.listing d /\ Model.items d' = Model.items d /\ Model.d_cap d' = Model.d_cap d /\ length (Model.d_recs d') = length (Model.d_recs d) /\ (exists (kept : list Model.rec) (m : nat) (pre rem : list Model.rec), Model.d_recs d' = kept ++ repeat Model.zero_rec m ++ rem /\ Model.d_recs d = pre ++ rem /\ length pre = (length kept + m)%nat /\ eof = Model.rlen kept /\ ProofsClean.ends_here rem /\ Forall (fun r : Model.rec => Model.b0 r <> 229 /\ ProofsBase.kind_of r <> ProofsBase.KEnd /\ length r = 32%nat) kept /\ kept = fst (Model.clean_go (Model.d_recs d) false)).
+  forall (upper : list N -> list N) (d : Model.dir), ProofsClean.wf_recs (Model.d_recs d) -> ProofsClean.tidy (Model.d_recs d) = true -> let d' := fst (Model.clean d) in let eof := snd (Model.clean d) in ProofsView.view (Model.d_recs d') = ProofsView.view (Model.d_recs d) /\ (forall name : list N, Model.getitem upper d' name = Model.getitem upper d name) /\ (forall name : list N, Model.contains upper d' name = Model.contains upper d name) /\ Model.listing d' = Model.listing d /\ Model.items d' = Model.items d /\ Model.d_cap d' = Model.d_cap d /\ Datatypes.length (Model.d_recs d') = Datatypes.length (Model.d_recs d) /\ (exists (kept : list Model.rec) (m : nat) (pre rem : list Model.rec), Model.d_recs d' = kept ++ repeat Model.zero_rec m ++ rem /\ Model.d_recs d = pre ++ rem /\ Datatypes.length pre = (Datatypes.length kept + m)%nat /\ eof = Model.rlen kept /\ ProofsClean.ends_here rem /\ Forall (fun r : Model.rec => Model.b0 r <> 229 /\ ProofsBase.kind_of r <> ProofsBase.KEnd /\ Datatypes.length r = 32%nat) kept /\ kept = fst (Model.clean_go (Model.d_recs d) false)).
 Proof. exact FatDir.ProofsClean.clean_preserves_listing. Qed.
 Print Assumptions C10_clean_preserves_listing.
 
 (* a fixed root: ENOSPC exactly when, even after compaction, the new records plus the end-of-directory record do not fit; the directory then lists and resolves exactly as before *)
 Theorem C10_root_full_enospc :
-  forall (upper : list N -> list N) (spc : N) (d : Model.dir) (name : list N) (entry : Model.rec) (recs_new : list Model.rec), ProofsClean.wf_recs (Model.d_recs d) -> ProofsView.cap_ok d -> 0 < spc -> ProofsOps.entry_ok entry -> name <> [] -> ProofsLfn.name_ok name = true -> (length (Model.utf16 name) <= 255)%nat -> ProofsNames.ends_ffff name = false -> ~ In 229 (upper (FatDir.Model.lstrip_dots name)) -> (forall a : N, Model.case_attr name (fst (Model.short_parts name (upper (FatDir.Model.lstrip_dots name)))) (snd (Model.short_parts name (upper (FatDir.Model.lstrip_dots name)))) = Some a -> fst (Model.short_parts name (upper (FatDir.Model.lstrip_dots name))) <> []) -> Model.find upper (upper name) (upper name) (Model.groups (Model.d_recs d)) = Ok None -> (do xs <- Model.split_all (Model.groups (Model.d_recs d)); Model.prefix_entries name (upper (FatDir.Model.lstrip_dots name)) (FatDir.Model.existing_of upper xs) entry) = Ok recs_new -> forall n : N, Model.d_cap d = Some n -> ProofsClean.tidy (Model.d_recs d) = true -> let e1 := snd (Model.clean d) in (snd (FatDir.Model.setitem upper spc d name entry) = Some OSError_ENOSPC <-> n <= Model.last_end (Model.groups (Model.d_recs d)) + N.of_nat (length recs_new) /\ n <= e1 + N.of_nat (length recs_new)) /\ (snd (FatDir.Model.setitem upper spc d name entry) = Some OSError_ENOSPC -> fst (FatDir.Model.setitem upper spc d name entry) = fst (Model.clean d) /\ ProofsView.view (Model.d_recs (fst (Model.clean d))) = ProofsView.view (Model.d_recs d) /\ Model.listing (fst (Model.clean d)) = Model.listing d /\ (forall key : list N, Model.getitem upper (fst (Model.clean d)) key = Model.getitem upper d key) /\ (forall key : list N, Model.contains upper (fst (Model.clean d)) key = Model.contains upper d key)) /\ (snd (FatDir.Model.setitem upper spc d name entry) <> Some OSError_ENOSPC -> snd (FatDir.Model.setitem upper spc d name entry) = None).
+  forall (upper : list N -> list N) (spc : N) (d : Model.dir) (name : list N) (entry : Model.rec) (recs_new : list Model.rec), ProofsClean.wf_recs (Model.d_recs d) -> ProofsView.cap_ok d -> 0 < spc -> ProofsOps.entry_ok entry -> name <> [] -> ProofsLfn.name_ok name = true -> (Datatypes.length (Model.utf16 name) <= 255)%nat -> ProofsNames.ends_ffff name = false -> ~ In 229 (upper (FatDir.Model.lstrip_dots name)) -> (forall a : N, Model.case_attr name (fst (Model.short_parts name (upper (FatDir.Model.lstrip_dots name)))) (snd (Model.short_parts name (upper (FatDir.Model.lstrip_dots name)))) = Some a -> fst (Model.short_parts name (upper (FatDir.Model.lstrip_dots name))) <> []) -> Model.find upper (upper name) (upper name) (Model.groups (Model.d_recs d)) = Ok None -> (do xs <- Model.split_all (Model.groups (Model.d_recs d)); Model.prefix_entries name (upper (FatDir.Model.lstrip_dots name)) (FatDir.Model.existing_of upper xs) entry) = Ok recs_new -> forall n : N, Model.d_cap d = Some n -> ProofsClean.tidy (Model.d_recs d) = true -> let e1 := snd (Model.clean d) in (snd (FatDir.Model.setitem upper spc d name entry) = Some OSError_ENOSPC <-> n <= Model.last_end (Model.groups (Model.d_recs d)) + N.of_nat (Datatypes.length recs_new) /\ n <= e1 + N.of_nat (Datatypes.length recs_new)) /\ (snd (FatDir.Model.setitem upper spc d name entry) = Some OSError_ENOSPC -> fst (FatDir.Model.setitem upper spc d name entry) = fst (Model.clean d) /\ ProofsView.view (Model.d_recs (fst (Model.clean d))) = ProofsView.view (Model.d_recs d) /\ Model.listing (fst (Model.clean d)) = Model.listing d /\ (forall key : list N, Model.getitem upper (fst (Model.clean d)) key = Model.getitem upper d key) /\ (forall key : list N, Model.contains upper (fst (Model.clean d)) key = Model.contains upper d key)) /\ (snd (FatDir.Model.setitem upper spc d name entry) <> Some OSError_ENOSPC -> snd (FatDir.Model.setitem upper spc d name entry) = None).
 Proof. exact FatDir.ProofsMain.root_full_enospc. Qed.
 Print Assumptions C10_root_full_enospc.
 
